@@ -260,7 +260,7 @@ def model_exe():
 def run_lines(exe, lines, timeout=600, env=None):
     """feed lines, return (list of output lines, returncode, stderr)"""
     e = dict(os.environ)
-    e.setdefault('ASAN_OPTIONS', 'detect_leaks=1:abort_on_error=0:exitcode=99:allocator_may_return_null=1')
+    e.setdefault('ASAN_OPTIONS', 'detect_leaks=1:abort_on_error=0:exitcode=99:allocator_may_return_null=1:max_allocation_size_mb=1024')
     e.setdefault('UBSAN_OPTIONS', 'print_stacktrace=1:halt_on_error=1')
     if env:
         e.update(env)
@@ -456,7 +456,7 @@ class Session:
 
     def __init__(self, exe, env=None):
         e = dict(os.environ)
-        e.setdefault('ASAN_OPTIONS', 'detect_leaks=1:abort_on_error=0:exitcode=99:allocator_may_return_null=1')
+        e.setdefault('ASAN_OPTIONS', 'detect_leaks=1:abort_on_error=0:exitcode=99:allocator_may_return_null=1:max_allocation_size_mb=1024')
         e.setdefault('UBSAN_OPTIONS', 'print_stacktrace=1:halt_on_error=1')
         if env:
             e.update(env)
